@@ -132,6 +132,13 @@ def canon(e):
                 return ast.Constant(-n.operand.value)
             return n
 
+        def visit_Raise(self, n):
+            self.generic_visit(n)
+            # the text of an exception message is not behaviour any property here speaks about: raise E('..' % x) == raise E(f'..{x}')
+            if isinstance(n.exc, ast.Call) and isinstance(n.exc.func, (ast.Name, ast.Attribute)) and n.exc.args and not n.exc.keywords:
+                return ast.Raise(exc=ast.Call(func=n.exc.func, args=[ast.Constant('...')], keywords=[]), cause=n.cause)
+            return n
+
         def visit_Call(self, n):
             self.generic_visit(n)
             # dict(a=1, b=2) and {'a': 1, 'b': 2} are the same value
